@@ -246,6 +246,14 @@ static Case cases[] = {
                       "{\"a\":1,\"b\":2,\"arr\":[[1]]}", nullptr);
      }},
     // ---- C04 / C01 integer remainder
+    // KNOWN FINDING (not repaired: EvaluateTest pins "-8^-2" == -0.015625): prints DEFECT on the current tree
+    {"math_negative_base_even_negative_exponent", [] { return tp_is("{math:(-2)^-2}", "[1]", "0.25"); }},
+    {"math_power_of_real_operands", [] {
+         return tp_is("{math:2.5^2}|{math:1.5^2}|{math:(-2.5)^3 == -15.625}|{math:2^2.5}|{math:2.0^3.0}", "[1]", "6.25|2.25|1|{math:2^2.5}|8");
+     }},
+    {"math_precedence_after_nested_climb", [] {
+         return tp_is("{math:10 - 2 * 3 ^ 2 - 1}|{math:7 - 2 * 3 % 4 - 1}|{math:8-2*2^2-1 == -1}", "[1]", "-9|0|1");
+     }},
     {"math_remainder_by_zero", [] { return tp_is("{math: 5 % 0}", "[1]", "{math: 5 % 0}"); }},
     {"math_remainder_by_fraction", [] { return tp_is("{math: 5 % 0.5}", "[1]", "{math: 5 % 0.5}"); }},
     {"math_remainder_min_by_minus_one", [] { return tp_is("{math: (-9223372036854775807 - 1) % -1}", "[1]", "0"); }},
